@@ -33,6 +33,9 @@ type Sel struct {
 	Args string `json:"args,omitempty"`
 	Sub  []Sel  `json:"sub,omitempty"`
 	Raw  string `json:"raw,omitempty"`
+	// Parts: the selection set of a connection field, in order, out of edges totalCount pageInfo and
+	// their aliased doubles edges2 totalCount2 pageInfo2 (Sub goes below edges.node).
+	Parts []string `json:"parts,omitempty"`
 }
 
 // Spec is the behaviour of one field invocation.
